@@ -44,6 +44,8 @@ type Property struct {
 	Jobs     []Job
 	Assumes  []string
 	Explain  string
+	// Monitors: executor monitor kinds that count as violations of this property.
+	Monitors []string
 }
 
 type KnownFinding struct {
@@ -325,6 +327,15 @@ func cmdCheck(args []string) int {
 						mismatchNotes = append(mismatchNotes, fmt.Sprintf("%s %s: symbolic panic %q not reproduced", jobName(job), decKey(r.Trace), r.PanicMsg))
 					}
 					for _, me := range r.Monitors {
+						counts := false
+						for _, mk := range prop.Monitors {
+							if mk == me.Kind {
+								counts = true
+							}
+						}
+						if !counts {
+							continue
+						}
 						viols = append(viols, violation{Job: jobName(job), Assertion: "monitor:" + me.Kind, Kind: "monitor", Witness: cases[i].Witness,
 							Detail: me.Kind + " " + me.Detail + " at " + me.Where, Native: &rrc, Args: job.Args, Harness: job.Harness})
 					}
